@@ -336,7 +336,7 @@ impl Angle {
     /// # returns
     /// true if the angles are opposites (π apart)
     pub fn is_opposite(&self, other: &Angle) -> bool {
-        let blade_diff = (self.blade as i32 - other.blade as i32).abs();
+        let blade_diff = self.blade.abs_diff(other.blade);
         let rems_match = (self.rem - other.rem).abs() < 1e-15;
         blade_diff == 2 && rems_match
     }
